@@ -79,6 +79,15 @@ class Compiler:
 
     @_compile.register
     def _select(self, node: ast.Select):
+        # A nested SELECT must not change the table the enclosing
+        # statement is compiled against.
+        table = self.table
+        try:
+            return self._compile_select(node)
+        finally:
+            self.table = table
+
+    def _compile_select(self, node):
 
         # Compile the FROM clause.
         c_from_expr = self._compile_from(node.from_clause)
